@@ -65,8 +65,11 @@ var c02Cores = []c02Core{
 type c02Wrapper struct {
 	name string
 	// wrap returns statements that run core (statements) under the construct
-	wrap  func(core string, id int) string
-	holes bool // the statement claims this position cannot be reached by cancellation (documented exemption) — unused
+	wrap func(core string, id int) string
+	// pre, when set, returns statements run by an EARLIER vm.Execute call (under
+	// context.Background()) on the same environment: library code loaded first,
+	// called later under the cancellable context
+	pre func(core string, id int) string
 }
 
 func ind(s string) string { return "  " + strings.ReplaceAll(s, "\n", "\n  ") }
@@ -121,6 +124,38 @@ var c02Wrappers = []c02Wrapper{
 	{name: "if-then", wrap: func(c string, id int) string { return fmt.Sprintf("if true {\n%s\n}", ind(c)) }},
 	{name: "else-branch", wrap: func(c string, id int) string { return fmt.Sprintf("if false {\n  x = 1\n} else {\n%s\n}", ind(c)) }},
 	{name: "forin-once", wrap: func(c string, id int) string { return fmt.Sprintf("for it%d in [1] {\n%s\n}", id, ind(c)) }},
+	{name: "try-body-empty-catch", wrap: func(c string, id int) string { return fmt.Sprintf("try {\n%s\n} catch {\n}", ind(c)) }},
+	{name: "try-call-empty-catch", wrap: func(c string, id int) string {
+		return fmt.Sprintf("func tw%d() {\n%s\n}\ntry {\n  tw%d()\n} catch e {\n}", id, ind(c), id)
+	}},
+	{name: "try-call-empty-catch-in-list", wrap: func(c string, id int) string {
+		return fmt.Sprintf("func tw%d() {\n%s\n}\nfunc tg%d() {\n  try {\n    tw%d()\n  } catch {\n  }\n}\nx = [tg%d(), tickI()]", id, ind(c), id, id, id)
+	}},
+	{name: "try-call-empty-finally", wrap: func(c string, id int) string {
+		return fmt.Sprintf("func tw%d() {\n%s\n}\ntry {\n  tw%d()\n} catch {\n} finally {\n}", id, ind(c), id)
+	}},
+	{name: "if-empty-else", wrap: func(c string, id int) string { return fmt.Sprintf("if true {\n%s\n} else {\n}", ind(c)) }},
+	{name: "library-func0", wrap: func(c string, id int) string { return fmt.Sprintf("lib%d()", id) },
+		pre: func(c string, id int) string { return fmt.Sprintf("func lib%d() {\n%s\n}", id, ind(c)) }},
+	{name: "library-func1", wrap: func(c string, id int) string { return fmt.Sprintf("lib%d(1)", id) },
+		pre: func(c string, id int) string { return fmt.Sprintf("func lib%d(a) {\n%s\n}", id, ind(c)) }},
+	{name: "library-func5", wrap: func(c string, id int) string { return fmt.Sprintf("lib%d(1, 2, 3, 4, 5)", id) },
+		pre: func(c string, id int) string { return fmt.Sprintf("func lib%d(a, b, c, d, e) {\n%s\n}", id, ind(c)) }},
+	{name: "library-func-variadic", wrap: func(c string, id int) string { return fmt.Sprintf("lib%d(1, 2)", id) },
+		pre: func(c string, id int) string { return fmt.Sprintf("func lib%d(a...) {\n%s\n}", id, ind(c)) }},
+	{name: "library-closure-in-map", wrap: func(c string, id int) string { return fmt.Sprintf("libm%d.run(1, 2, 3, 4, 5, 6)", id) },
+		pre: func(c string, id int) string {
+			return fmt.Sprintf("libm%d = {\"run\": func(a, b, c, d, e, f) {\n%s\n}}", id, ind(c))
+		}},
+	{name: "callback-boxed-element", wrap: func(c string, id int) string {
+		return fmt.Sprintf("fs%d = [func() {\n%s\n}]\napply(fs%d[0])", id, ind(c), id)
+	}},
+	{name: "callback-from-ident-call", wrap: func(c string, id int) string {
+		return fmt.Sprintf("apply(ident(func() {\n%s\n}))", ind(c))
+	}},
+	{name: "callback-from-chan", wrap: func(c string, id int) string {
+		return fmt.Sprintf("cb%d = make(chan interface, 1)\ncb%d <- func() {\n%s\n}\napply(<- cb%d)", id, id, ind(c), id)
+	}},
 	{name: "callback-func-type", wrap: func(c string, id int) string { return fmt.Sprintf("apply(func() {\n%s\n})", ind(c)) }},
 	{name: "callback-less", wrap: func(c string, id int) string {
 		return fmt.Sprintf("sortLike([2, 1], func(a, b) {\n%s\n  return true\n})", ind(c))
@@ -149,20 +184,39 @@ func (cc c02Case) describe() string {
 }
 
 func (cc c02Case) source() string {
+	_, main := cc.sources()
+	return main
+}
+
+// sources returns (prelude, main): the prelude, if any, is executed first by a
+// separate vm.Execute call on the same environment.
+func (cc c02Case) sources() (string, string) {
 	core := c02Cores[cc.core]
 	body := core.src
+	prelude := ""
 	for i, w := range cc.wrappers {
-		body = c02Wrappers[w].wrap(body, i)
+		wr := c02Wrappers[w]
+		if wr.pre != nil {
+			// everything wrapped so far becomes library code
+			prelude += wr.pre(body, i) + "\n"
+			body = wr.wrap(body, i)
+			continue
+		}
+		body = wr.wrap(body, i)
 	}
 	src := ""
 	if core.setup != "" {
-		src = core.setup + "\n"
+		if prelude != "" {
+			prelude = core.setup + "\n" + prelude
+		} else {
+			src = core.setup + "\n"
+		}
 	}
 	src += body
 	if cc.trailing {
 		src += "\ntick()\ntick()\ntick()\nx = 1"
 	}
-	return src
+	return prelude, src
 }
 
 // the fixed cases at the head of the list: the inputs of the known defects
@@ -252,10 +306,10 @@ func procCPU() float64 {
 }
 
 func c02Run(c *wk.Case, cc c02Case, delay time.Duration) {
-	src := cc.source()
+	prelude, src := cc.sources()
 	desc := cc.describe()
 	core := c02Cores[cc.core]
-	input := map[string]interface{}{"program": src, "case": desc}
+	input := map[string]interface{}{"program": src, "library_loaded_by_an_earlier_execute": prelude, "case": desc}
 	c.Begin(input)
 	old := runtime.GOMAXPROCS(cc.procs)
 	defer runtime.GOMAXPROCS(old)
@@ -289,6 +343,12 @@ func c02Run(c *wk.Case, cc c02Case, delay time.Duration) {
 		}
 	})
 
+	if prelude != "" {
+		if po := ank.Exec(e, prelude); po.Err != nil || po.Panicked {
+			c.Inconclusive("prelude-failed", ank.ErrText(po.Err)+po.PanicVal, input)
+			return
+		}
+	}
 	var o ank.Out
 	done := make(chan struct{})
 	var wg sync.WaitGroup
